@@ -4,15 +4,16 @@ CONSTANTS
   InitAMs = {"am1"}
   Cap = 2
   MaxBatch = 2
-  NAlerts = 4
-  SendSizes = {1, 3}
+  NAlerts = 3
+  SendSizes = {1, 2}
   DropIds = {2}
   MaxFail = 1
   MaxSync = 1
-  JoinFix = TRUE
   Eager = FALSE
   Hist = FALSE
   EmitMode = "none"
-INVARIANTS TypeOK OrderPreserved BatchBound AcceptedAreSurvivors QueueIsSuffix LossCounted LossExactFix SentCounted DrainComplete
+INVARIANTS TypeOK OrderPreservedKF BatchBound AcceptedAreSurvivors QueueIsSuffix LossCounted LossExact SentCounted DrainCompleteKF
 PROPERTIES DropOldest
 CHECK_DEADLOCK FALSE
+CONSTANTS
+  JoinFix = FALSE
